@@ -82,49 +82,57 @@ func checkResolveTypes(w *World, r *Result) {
 	}
 	collected := map[string]bool{}
 	resolved := map[string]ast.Node{}
-	// normalise roots: endpoint var / contract pointer var / range vars over slices of typed params
-	scan := func(loop *ast.RangeStmt, collect bool) {
-		roots := map[types.Object]string{}
-		if id := identOf(loop.Value); id != nil && id.Name != "_" {
-			roots[info.Defs[id]] = "E"
+	// normalise roots: endpoint var / contract pointer var / range vars over slices of typed params. A helper of the
+	// package called on (or with) a part of the endpoint is followed with its receiver / parameters bound to that part.
+	var scanBody func(body ast.Node, roots map[types.Object]string, base string, collect bool, depth int)
+	scanBody = func(body ast.Node, roots map[types.Object]string, base string, collect bool, depth int) {
+		path := func(e ast.Expr) string {
+			if p := slotPath(info, e, roots); p != "" {
+				return p
+			}
+			// endpoints[i] (possibly &…, possibly .Contract…) is E when ranging over endpoints
+			x := ast.Unparen(e)
+			if u, ok := x.(*ast.UnaryExpr); ok {
+				x = ast.Unparen(u.X)
+			}
+			var sels []string
+			for {
+				if sel, ok := x.(*ast.SelectorExpr); ok {
+					sels = append([]string{sel.Sel.Name}, sels...)
+					x = ast.Unparen(sel.X)
+					continue
+				}
+				break
+			}
+			if ix, ok := x.(*ast.IndexExpr); ok && base != "" && es(ix.X) == base {
+				p := "E"
+				for _, n := range sels {
+					p += "." + n
+				}
+				return p
+			}
+			return ""
 		}
 		// locals bound to parts of the endpoint
 		changed := true
 		for changed {
 			changed = false
-			ast.Inspect(loop.Body, func(x ast.Node) bool {
+			ast.Inspect(body, func(x ast.Node) bool {
 				switch s := x.(type) {
 				case *ast.AssignStmt:
 					if len(s.Lhs) == 1 && len(s.Rhs) == 1 {
 						if id := identOf(s.Lhs[0]); id != nil {
-							rhs := ast.Unparen(s.Rhs[0])
-							// endpoints[i] is E when i is the key of the loop
-							if ix, ok := rhs.(*ast.UnaryExpr); ok {
-								rhs = ix.X
-							}
-							p := slotPath(info, rhs, roots)
-							if p == "" {
-								// ct := &endpoints[i].Contract
-								if sel, ok := rhs.(*ast.SelectorExpr); ok {
-									if ix, ok := sel.X.(*ast.IndexExpr); ok && es(ix.X) == es(loop.X) {
-										p = "E." + sel.Sel.Name
-									}
-								}
-							}
-							if p != "" && roots[objOf(info, id)] == "" {
+							if p := path(s.Rhs[0]); p != "" && roots[objOf(info, id)] == "" {
 								roots[objOf(info, id)] = p
 								changed = true
 							}
 						}
 					}
 				case *ast.RangeStmt:
-					if p := slotPath(info, s.X, roots); p != "" {
+					if p := path(s.X); p != "" {
 						if id := identOf(s.Value); id != nil && id.Name != "_" && roots[info.Defs[id]] == "" {
 							roots[info.Defs[id]] = p + "[*]"
 							changed = true
-						}
-						if id := identOf(s.Key); id != nil && id.Name != "_" {
-							_ = id
 						}
 					}
 				}
@@ -132,34 +140,69 @@ func checkResolveTypes(w *World, r *Result) {
 			})
 		}
 		if collect {
-			for _, app := range appendStmts(info, loop.Body, "") {
+			for _, app := range appendStmts(info, body, "") {
 				arg := app.Rhs[0].(*ast.CallExpr).Args[1]
-				if p := slotPath(info, arg, roots); p != "" {
+				if p := path(arg); p != "" {
 					collected[p] = true
 				}
 			}
-			return
 		}
 		// resolved: an.Types[<slot>] reads and X.resolveType(an) calls
-		ast.Inspect(loop.Body, func(x ast.Node) bool {
+		ast.Inspect(body, func(x ast.Node) bool {
 			switch s := x.(type) {
 			case *ast.IndexExpr:
-				if strings.HasSuffix(es(s.X), ".Types") {
-					if p := slotPath(info, s.Index, roots); p != "" {
+				if !collect && strings.HasSuffix(es(s.X), ".Types") {
+					if p := path(s.Index); p != "" {
 						resolved[p] = s
 					}
 				}
 			case *ast.CallExpr:
-				if fn := calleeOf(info, s); fn != nil && fn.Name() == "resolveType" {
-					if sel, ok := s.Fun.(*ast.SelectorExpr); ok {
-						if p := slotPath(info, sel.X, roots); p != "" {
-							resolved[p+".type_"] = s
-						}
+				fn := calleeOf(info, s)
+				if fn == nil {
+					return true
+				}
+				sel, isSel := s.Fun.(*ast.SelectorExpr)
+				if !collect && fn.Name() == "resolveType" && isSel {
+					if p := path(sel.X); p != "" {
+						resolved[p+".type_"] = s
 					}
+					return true
+				}
+				// a helper of the package: bind its receiver and parameters to the parts it is given
+				cf := w.Funcs[fn]
+				if cf == nil || cf.Pkg != fi.Pkg || cf.Decl.Body == nil || depth >= 2 || cf == fi {
+					return true
+				}
+				sub := map[types.Object]string{}
+				if isSel && cf.Decl.Recv != nil && len(cf.Decl.Recv.List[0].Names) == 1 {
+					if p := path(sel.X); p != "" {
+						sub[info.Defs[cf.Decl.Recv.List[0].Names[0]]] = p
+					}
+				}
+				k := 0
+				for _, f := range cf.Decl.Type.Params.List {
+					for _, nm := range f.Names {
+						if k < len(s.Args) {
+							if p := path(s.Args[k]); p != "" {
+								sub[info.Defs[nm]] = p
+							}
+						}
+						k++
+					}
+				}
+				if len(sub) > 0 {
+					scanBody(cf.Decl.Body, sub, "", collect, depth+1)
 				}
 			}
 			return true
 		})
+	}
+	scan := func(loop *ast.RangeStmt, collect bool) {
+		roots := map[types.Object]string{}
+		if id := identOf(loop.Value); id != nil && id.Name != "_" {
+			roots[info.Defs[id]] = "E"
+		}
+		scanBody(loop.Body, roots, es(loop.X), collect, 0)
 	}
 	scan(loops[0], true)
 	scan(loops[1], false)
@@ -559,45 +602,27 @@ func checkReturnParser(w *World, r *Result) {
 		pos   token.Pos
 	}
 	var brs []*br
-	ast.Inspect(fi.Decl.Body, func(x ast.Node) bool {
-		is, ok := x.(*ast.IfStmt)
-		if !ok {
-			return true
-		}
-		var names []string
-		for _, c := range splitCond(is.Cond, false) {
-			_ = c
-		}
-		ast.Inspect(is.Cond, func(y ast.Node) bool {
-			if be, ok := y.(*ast.BinaryExpr); ok && be.Op == token.EQL && strings.HasSuffix(es(be.X), ".Sel.Name") {
-				if tv := info.Types[be.Y]; tv.Value != nil && tv.Value.Kind() == constant.String {
-					names = append(names, constant.StringVal(tv.Value))
-				}
-			}
-			return true
-		})
-		if len(names) == 0 {
-			return true
-		}
-		b := &br{names: names, idx: map[int]bool{}, pos: is.Pos()}
-		ast.Inspect(is.Body, func(y ast.Node) bool {
-			if ix, ok := y.(*ast.IndexExpr); ok && strings.HasSuffix(es(ix.X), ".Args") {
-				if k, ok := constInt(info, ix.Index); ok {
-					b.idx[k] = true
-				}
-			}
-			if a, ok := y.(*ast.AssignStmt); ok {
-				for i, l := range a.Lhs {
-					if strings.HasSuffix(es(l), ".IsReturnBlob") && i < len(a.Rhs) && es(a.Rhs[i]) == "true" {
-						b.blob = true
+	for _, d := range stringDispatch(info, fi.Decl.Body, func(e ast.Expr) bool { return strings.HasSuffix(es(e), ".Sel.Name") }) {
+		b := &br{names: d.names, idx: map[int]bool{}, pos: d.pos}
+		for _, st := range d.body {
+			ast.Inspect(st, func(y ast.Node) bool {
+				if ix, ok := y.(*ast.IndexExpr); ok && strings.HasSuffix(es(ix.X), ".Args") {
+					if k, ok := constInt(info, ix.Index); ok {
+						b.idx[k] = true
 					}
 				}
-			}
-			return true
-		})
+				if a, ok := y.(*ast.AssignStmt); ok {
+					for i, l := range a.Lhs {
+						if strings.HasSuffix(es(l), ".IsReturnBlob") && i < len(a.Rhs) && es(a.Rhs[i]) == "true" {
+							b.blob = true
+						}
+					}
+				}
+				return true
+			})
+		}
 		brs = append(brs, b)
-		return true
-	})
+	}
 	seenJSON, seenBlob := false, false
 	for _, b := range brs {
 		for _, nm := range b.names {
@@ -873,8 +898,10 @@ func checkContractOrder(w *World, r *Result) {
 				}
 			}
 		}
-		r.cond(depth == 1 && overParam, "SHP-C13s", fi.Name, "append to "+es(as.Lhs[0])+" in source order", w.Pos(as.Pos()),
-			"one pass over the right-hand sides, in their order",
+		// loops nested inside the pass over the right-hand sides (a table of method names tried for one right-hand
+		// side) keep the source order: only the outermost loop decides the grouping
+		r.cond(depth >= 1 && overParam, "SHP-C13s", fi.Name, "append to "+es(as.Lhs[0])+" in source order", w.Pos(as.Pos()),
+			"the outermost loop is one pass over the right-hand sides, in their order",
 			"the parameters are appended inside nested loops (the outer one does not range over the right-hand sides): they come out grouped by the outer loop's variable instead of in source order")
 	}
 	if n == 0 {
@@ -892,7 +919,7 @@ func checkAnonymousNames(w *World, r *Result) {
 	n := 0
 	ast.Inspect(fi.Decl.Body, func(x ast.Node) bool {
 		call, ok := x.(*ast.CallExpr)
-		if !ok || fullName(calleeOf(info, call)) != "fmt.Sprintf" || len(call.Args) != 2 {
+		if !ok || !isSprintf(info, &call) || len(call.Args) != 2 {
 			return true
 		}
 		tv := info.Types[call.Args[0]]
@@ -914,4 +941,63 @@ func checkAnonymousNames(w *World, r *Result) {
 	if n == 0 {
 		Undecided("SHP-C13u: no `Anonymous%%d` name found in parseEndpointFunc")
 	}
+}
+
+// strBranch is one arm of a dispatch on the string value of a subject expression.
+type strBranch struct {
+	names []string
+	body  []ast.Stmt
+	pos   token.Pos
+}
+
+// stringDispatch lists the arms that compare a subject (selected by isSubject) with string constants, whatever the
+// syntax of the dispatch: `if s == "a" || s == "b" {…} else if s == "c" {…}`, `switch s { case "a", "b": … }`, or
+// `switch { case s == "a": … }`.
+func stringDispatch(info *types.Info, root ast.Node, isSubject func(ast.Expr) bool) []strBranch {
+	var out []strBranch
+	namesOf := func(cond ast.Expr) []string {
+		var names []string
+		ast.Inspect(cond, func(y ast.Node) bool {
+			if be, ok := y.(*ast.BinaryExpr); ok && be.Op == token.EQL {
+				for _, pr := range [][2]ast.Expr{{be.X, be.Y}, {be.Y, be.X}} {
+					if isSubject(pr[0]) {
+						if tv := info.Types[pr[1]]; tv.Value != nil && tv.Value.Kind() == constant.String {
+							names = append(names, constant.StringVal(tv.Value))
+						}
+					}
+				}
+			}
+			return true
+		})
+		return names
+	}
+	ast.Inspect(root, func(x ast.Node) bool {
+		switch v := x.(type) {
+		case *ast.IfStmt:
+			if names := namesOf(v.Cond); len(names) > 0 {
+				out = append(out, strBranch{names, v.Body.List, v.Pos()})
+			}
+		case *ast.SwitchStmt:
+			for _, cl := range v.Body.List {
+				cc := cl.(*ast.CaseClause)
+				var names []string
+				if v.Tag != nil && isSubject(v.Tag) {
+					for _, e := range cc.List {
+						if tv := info.Types[e]; tv.Value != nil && tv.Value.Kind() == constant.String {
+							names = append(names, constant.StringVal(tv.Value))
+						}
+					}
+				} else if v.Tag == nil {
+					for _, e := range cc.List {
+						names = append(names, namesOf(e)...)
+					}
+				}
+				if len(names) > 0 {
+					out = append(out, strBranch{names, cc.Body, cc.Pos()})
+				}
+			}
+		}
+		return true
+	})
+	return out
 }
